@@ -90,9 +90,9 @@ Proof.
   - apply IHfuel; [eauto with good|assumption|measure].
   - apply IHfuel; [eauto with good|assumption|measure].
   - eapply good_bind with (Q := fun c' => depth c' = d); [gauto|]. intros c1 H1.
-    gb. gb. gstep. gb. gstep. gstep. gstep.
+    gb. gb. gb.
     eapply good_bind; [apply Hpc; [unfold depth in *; lia|assumption|kfin]|].
-    intros [s' c2] H2; gsimp. gstep; [gauto|]. gstep. gstep.
+    intros [s' c2] Hc2; gsimp. gstep; [gauto|].
     apply IHfuel; [eauto with good| |measure].
     unfold depth in *. cbn [c_ld set_ld set_entity_floor set_tag_name] in *.
     apply dec_depth_succ. assumption.
@@ -138,7 +138,7 @@ End WithText.
    necessary: see TermUtf8.termination_needs_valid_utf8. *)
 
 (* 1. the tokenizer with ANY callback that itself never runs out of fuel *)
-Theorem tokenizer_terminates : forall (text : bytes) (C : Type) (ev : token -> C -> res C) (dtd : bool) (c : C),
+Theorem tokenizer_terminates : forall (text : bytes) (C : Type) (ev : Tokenizer.token -> C -> res C) (dtd : bool) (c : C),
   valid_utf8_b text = true ->
   (forall tok c0, ev tok c0 <> OutOfFuel) ->
   parse_document text C ev dtd c <> OutOfFuel.
